@@ -1303,8 +1303,7 @@ end Piqp.C14
 
 /-! ## Storage level: the CSC loops of `pre_mult_diagonal` / `post_mult_diagonal` compute `D·A` / `A·D`
 
-`transpose_no_allocation` (`Csc.transposeInto`) is modelled and tied at storage level too (check C14: the three arrays on every
-pattern up to 3×3) but its specification is not proved here. -/
+`transpose_no_allocation` (`Csc.transposeInto`) follows below. -/
 
 namespace Piqp.Csc
 variable {K : Type}
@@ -1442,4 +1441,419 @@ theorem get_postMultDiag (A : Csc K) (hm : Mono A) (d : Array K) (i j : Nat) (hj
     congr 1
     rw [Array.getD_eq_getD_getElem?, mapCols_get A hm _ j k hj ((mem_colRange A j k).mp hk), getD_of_map A.vals k (fun x => x * d.getD j 0) (zero_mul _)]
   · rw [if_neg h, if_neg h]
+end Piqp.Csc
+
+/-! ## Storage level: `transpose_no_allocation` (bucket filling through the abused column-start array) -/
+
+namespace Piqp.Csc
+variable {K : Type}
+
+/-- one stored entry of `A` as the transpose loop sees it: (row, column, value) -/
+abbrev Ent (K : Type) := Nat × Nat × K
+
+/-- the body of `transpose_no_allocation` for one entry: write at the cursor of the entry's row, advance that cursor -/
+def bstep (st : Array Nat × Array Nat × Array K) (e : Ent K) : Array Nat × Array Nat × Array K :=
+  (st.1.modify e.1 (· + 1), st.2.1.setIfInBounds (st.1.getD e.1 0) e.2.1, st.2.2.setIfInBounds (st.1.getD e.1 0) e.2.2)
+
+/-- entries of `L` in row `i`, in order -/
+def rowOf (L : List (Ent K)) (i : Nat) : List (Ent K) := L.filter (fun e => e.1 == i)
+
+theorem rowOf_cons_eq (e : Ent K) (L : List (Ent K)) : rowOf (e :: L) e.1 = e :: rowOf L e.1 := by
+  simp [rowOf]
+theorem rowOf_cons_ne (e : Ent K) (L : List (Ent K)) (i : Nat) (h : e.1 ≠ i) : rowOf (e :: L) i = rowOf L i := by
+  simp [rowOf, h]
+
+theorem bstep_cur (st : Array Nat × Array Nat × Array K) (e : Ent K) (he : e.1 < st.1.size) (i : Nat) :
+    (bstep st e).1.getD i 0 = st.1.getD i 0 + (if e.1 = i then 1 else 0) ∧ (bstep st e).1.size = st.1.size := by
+  unfold bstep
+  refine ⟨?_, by simp⟩
+  simp only [Array.getD_eq_getD_getElem?, Array.getElem?_modify]
+  by_cases h : e.1 = i
+  · subst h
+    simp [he]
+  · simp [h]
+
+/-- cursors advance by the number of entries of their row -/
+theorem fold_cur : ∀ (L : List (Ent K)) (st : Array Nat × Array Nat × Array K), (∀ e ∈ L, e.1 < st.1.size) → ∀ i,
+    (L.foldl bstep st).1.getD i 0 = st.1.getD i 0 + (rowOf L i).length ∧ (L.foldl bstep st).1.size = st.1.size
+  | [], st, _, i => by simp [rowOf]
+  | e :: L, st, h, i => by
+    have he := h e List.mem_cons_self
+    obtain ⟨c1, c2⟩ := bstep_cur st e he i
+    have ih := fold_cur L (bstep st e) (fun e' he' => by rw [(bstep_cur st e he 0).2]; exact h e' (List.mem_cons_of_mem _ he')) i
+    rw [List.foldl_cons]
+    refine ⟨?_, by rw [ih.2, c2]⟩
+    rw [ih.1, c1]
+    by_cases hi : e.1 = i
+    · subst hi; rw [rowOf_cons_eq]; simp; omega
+    · rw [rowOf_cons_ne e L i hi]; simp [hi]
+
+/-- position `q` lies in the part of row `i`'s bucket that the remaining entries `L` will fill -/
+def inBucket (st : Array Nat × Array Nat × Array K) (L : List (Ent K)) (i q : Nat) : Prop :=
+  st.1.getD i 0 ≤ q ∧ q < st.1.getD i 0 + (rowOf L i).length
+
+theorem inBucket_step (st : Array Nat × Array Nat × Array K) (e : Ent K) (L : List (Ent K)) (he : e.1 < st.1.size) (i q : Nat)
+    (h : inBucket (bstep st e) L i q) : inBucket st (e :: L) i q ∧ ¬ (i = e.1 ∧ q = st.1.getD e.1 0) := by
+  unfold inBucket at *
+  rw [(bstep_cur st e he i).1] at h
+  by_cases hi : e.1 = i
+  · subst hi
+    rw [rowOf_cons_eq]
+    simp only [if_true, List.length_cons] at h ⊢
+    exact ⟨⟨by omega, by omega⟩, fun hh => by omega⟩
+  · rw [rowOf_cons_ne e L i hi]
+    simp only [hi, if_false, Nat.add_zero] at h
+    exact ⟨h, fun hh => hi hh.1.symm⟩
+
+/-- positions outside every bucket are never written -/
+theorem fold_outside : ∀ (L : List (Ent K)) (st : Array Nat × Array Nat × Array K), (∀ e ∈ L, e.1 < st.1.size) → ∀ q,
+    (∀ i, ¬ inBucket st L i q) →
+    (L.foldl bstep st).2.1[q]? = st.2.1[q]? ∧ (L.foldl bstep st).2.2[q]? = st.2.2[q]?
+  | [], st, _, q, _ => ⟨rfl, rfl⟩
+  | e :: L, st, h, q, hout => by
+    have he := h e List.mem_cons_self
+    have ih := fold_outside L (bstep st e) (fun e' he' => by rw [(bstep_cur st e he 0).2]; exact h e' (List.mem_cons_of_mem _ he')) q
+      (fun i hb => hout i (inBucket_step st e L he i q hb).1)
+    rw [List.foldl_cons, ih.1, ih.2]
+    have hq : st.1.getD e.1 0 ≠ q := by
+      intro heq
+      apply hout e.1
+      unfold inBucket
+      rw [rowOf_cons_eq]
+      simp only [List.length_cons]
+      omega
+    have hq' : st.1[e.1]?.getD 0 ≠ q := by rw [← Array.getD_eq_getD_getElem?]; exact hq
+    unfold bstep
+    simp only [Array.getElem?_setIfInBounds, Array.getD_eq_getD_getElem?]
+    simp [hq']
+
+/-- buckets of different rows do not overlap -/
+def Disj (st : Array Nat × Array Nat × Array K) (L : List (Ent K)) : Prop :=
+  ∀ i i' q, i ≠ i' → ¬ (inBucket st L i q ∧ inBucket st L i' q)
+/-- buckets lie inside the two target arrays -/
+def Fits (st : Array Nat × Array Nat × Array K) (L : List (Ent K)) : Prop :=
+  ∀ i q, inBucket st L i q → q < st.2.1.size ∧ q < st.2.2.size
+
+theorem bstep_sizes (st : Array Nat × Array Nat × Array K) (e : Ent K) :
+    (bstep st e).2.1.size = st.2.1.size ∧ (bstep st e).2.2.size = st.2.2.size := by
+  unfold bstep; simp
+
+/-- after the loop, the bucket of row `i` holds the entries of row `i` in the order the loop met them -/
+theorem fold_bucket : ∀ (L : List (Ent K)) (st : Array Nat × Array Nat × Array K), (∀ e ∈ L, e.1 < st.1.size) →
+    Disj st L → Fits st L → ∀ (i r : Nat) (hr : r < (rowOf L i).length),
+    (L.foldl bstep st).2.1[st.1.getD i 0 + r]? = some ((rowOf L i)[r]).2.1 ∧
+    (L.foldl bstep st).2.2[st.1.getD i 0 + r]? = some ((rowOf L i)[r]).2.2
+  | [], st, _, _, _, i, r, hr => by simp [rowOf] at hr
+  | e :: L, st, h, hd, hf, i, r, hr => by
+    have he := h e List.mem_cons_self
+    have hrows : ∀ e' ∈ L, e'.1 < (bstep st e).1.size := fun e' he' => by
+      rw [(bstep_cur st e he 0).2]; exact h e' (List.mem_cons_of_mem _ he')
+    have hd' : Disj (bstep st e) L := fun a b q hab hh =>
+      hd a b q hab ⟨(inBucket_step st e L he a q hh.1).1, (inBucket_step st e L he b q hh.2).1⟩
+    have hf' : Fits (bstep st e) L := fun a q hh => by
+      rw [(bstep_sizes st e).1, (bstep_sizes st e).2]; exact hf a q (inBucket_step st e L he a q hh).1
+    rw [List.foldl_cons]
+    by_cases hi : e.1 = i
+    · subst hi
+      have hrow : rowOf (e :: L) e.1 = e :: rowOf L e.1 := rowOf_cons_eq e L
+      have hin0 : inBucket st (e :: L) e.1 (st.1.getD e.1 0) := by
+        unfold inBucket; rw [hrow]; simp only [List.length_cons]; omega
+      cases r with
+      | zero =>
+        have hout : ∀ i', ¬ inBucket (bstep st e) L i' (st.1.getD e.1 0) := by
+          intro i' hb
+          obtain ⟨h1, h2⟩ := inBucket_step st e L he i' _ hb
+          by_cases hie : i' = e.1
+          · exact h2 ⟨hie, rfl⟩
+          · exact hd i' e.1 _ hie ⟨h1, hin0⟩
+        obtain ⟨o1, o2⟩ := fold_outside L (bstep st e) hrows _ hout
+        obtain ⟨s1, s2⟩ := hf e.1 _ hin0
+        simp only [Nat.add_zero, hrow, List.getElem_cons_zero]
+        rw [o1, o2]
+        unfold bstep
+        simp only [Array.getElem?_setIfInBounds]
+        rw [Array.getD_eq_getD_getElem?] at s1 s2
+        simp only [Array.getD_eq_getD_getElem?]
+        simp [s1, s2]
+      | succ r' =>
+        have hr' : r' < (rowOf L e.1).length := by rw [hrow] at hr; simpa using hr
+        have ih := fold_bucket L (bstep st e) hrows hd' hf' e.1 r' hr'
+        rw [(bstep_cur st e he e.1).1] at ih
+        simp only [if_true] at ih
+        have hpos : st.1.getD e.1 0 + (r' + 1) = st.1.getD e.1 0 + 1 + r' := by omega
+        rw [hpos]
+        simp only [hrow, List.getElem_cons_succ]
+        exact ih
+    · have hrow : rowOf (e :: L) i = rowOf L i := rowOf_cons_ne e L i hi
+      have hr' : r < (rowOf L i).length := by rw [hrow] at hr; exact hr
+      have ih := fold_bucket L (bstep st e) hrows hd' hf' i r hr'
+      rw [(bstep_cur st e he i).1] at ih
+      simp only [hi, if_false, Nat.add_zero] at ih
+      simp only [hrow]
+      exact ih
+
+/-- the stored entries of `A` in the order `transpose_no_allocation` visits them -/
+def entries [Zero K] (A : Csc K) : List (Ent K) :=
+  (List.range A.cols).flatMap fun j => (A.colRange j).map fun k => (A.inner.getD k 0, j, A.vals.getD k 0)
+
+/-- the two nested loops of `transposeInto` are one pass of `bstep` over `entries A` -/
+theorem transposeInto_fold [Zero K] (A C : Csc K) :
+    (List.range A.cols).foldl (fun st j => (A.colRange j).foldl (fun st k =>
+        ((st.1.modify (A.inner.getD k 0) (· + 1), st.2.1.setIfInBounds (st.1.getD (A.inner.getD k 0) 0) j,
+          st.2.2.setIfInBounds (st.1.getD (A.inner.getD k 0) 0) (A.vals.getD k 0)) : Array Nat × Array Nat × Array K)) st) (C.outer, C.inner, C.vals) =
+      (entries A).foldl bstep (C.outer, C.inner, C.vals) := by
+  unfold entries
+  rw [List.foldl_flatMap]
+  congr 1
+  funext st j
+  rw [List.foldl_map]
+  rfl
+
+theorem foldl_filter' {α β : Type} (p : α → Bool) (g : β → α → β) : ∀ (l : List α) (acc : β),
+    (l.filter p).foldl g acc = l.foldl (fun acc e => if p e then g acc e else acc) acc
+  | [], _ => rfl
+  | e :: l, acc => by
+    by_cases h : p e
+    · simp only [List.filter_cons, h, if_true, List.foldl_cons]; exact foldl_filter' p g l _
+    · simp only [List.filter_cons, h, List.foldl_cons]; exact foldl_filter' p g l _
+
+/-- a fold over consecutive positions that hold the elements of a list is the fold over the list -/
+theorem foldl_positions {α β : Type} (g : β → α → β) (a : Nat → α) : ∀ (l : List α) (s : Nat) (acc : β),
+    (∀ r (hr : r < l.length), a (s + r) = l[r]) →
+    (List.range' s l.length).foldl (fun acc q => g acc (a q)) acc = l.foldl g acc
+  | [], _, _, _ => rfl
+  | e :: l, s, acc, h => by
+    rw [List.length_cons, List.range'_succ, List.foldl_cons, List.foldl_cons]
+    have h0 := h 0 (by simp)
+    simp only [Nat.add_zero, List.getElem_cons_zero] at h0
+    rw [h0]
+    exact foldl_positions g a l (s + 1) _ (fun r hr => by
+      have := h (r + 1) (by simp; omega)
+      simp only [List.getElem_cons_succ] at this
+      rw [← this]; congr 1; omega)
+
+
+theorem shift_size (m : Nat) (o : Array Nat) : ∀ n : Nat,
+    ((List.range n).foldl (fun o t => o.setIfInBounds (m - 1 - t) (o.getD (m - 1 - t - 1) 0)) o).size = o.size
+  | 0 => rfl
+  | n+1 => by
+    rw [List.range_succ, List.foldl_append, List.foldl_cons, List.foldl_nil, Array.size_setIfInBounds]
+    exact shift_size m o n
+
+/-- the downward shift `for j = m-1 … 1: o[j] = o[j-1]` after `n` steps -/
+theorem shift_steps (m : Nat) (o : Array Nat) (hs : m ≤ o.size) : ∀ (n : Nat), n ≤ m - 1 → ∀ q,
+    ((List.range n).foldl (fun o t => o.setIfInBounds (m - 1 - t) (o.getD (m - 1 - t - 1) 0)) o)[q]? =
+      if m - n ≤ q ∧ q ≤ m - 1 ∧ 1 ≤ q then o[q - 1]? else o[q]?
+  | 0, _, q => by
+    have : ¬ (m - 0 ≤ q ∧ q ≤ m - 1 ∧ 1 ≤ q) := by omega
+    rw [if_neg this]; rfl
+  | n+1, hn, q => by
+    rw [List.range_succ, List.foldl_append, List.foldl_cons, List.foldl_nil]
+    have ih := shift_steps m o hs n (by omega)
+    have hsz : ((List.range n).foldl (fun o t => o.setIfInBounds (m - 1 - t) (o.getD (m - 1 - t - 1) 0)) o).size = o.size :=
+      shift_size m o n
+    rw [Array.getElem?_setIfInBounds]
+    by_cases hq : m - 1 - n = q
+    · subst hq
+      have h1 : m - 1 - n < ((List.range n).foldl (fun o t => o.setIfInBounds (m - 1 - t) (o.getD (m - 1 - t - 1) 0)) o).size := by
+        rw [hsz]; omega
+      have h2 : m - (n + 1) ≤ m - 1 - n ∧ m - 1 - n ≤ m - 1 ∧ 1 ≤ m - 1 - n := by omega
+      rw [if_pos rfl, if_pos h1, if_pos h2, Array.getD_eq_getD_getElem?, ih]
+      have h3 : ¬ (m - n ≤ m - 1 - n - 1 ∧ m - 1 - n - 1 ≤ m - 1 ∧ 1 ≤ m - 1 - n - 1) := by omega
+      rw [if_neg h3]
+      have h4 : m - 1 - n - 1 < o.size := by omega
+      simp [h4]
+    · rw [if_neg hq, ih]
+      by_cases h5 : m - n ≤ q ∧ q ≤ m - 1 ∧ 1 ≤ q
+      · have : m - (n + 1) ≤ q ∧ q ≤ m - 1 ∧ 1 ≤ q := by omega
+        rw [if_pos h5, if_pos this]
+      · have : ¬ (m - (n + 1) ≤ q ∧ q ≤ m - 1 ∧ 1 ≤ q) := by omega
+        rw [if_neg h5, if_neg this]
+
+/-- what `transpose_no_allocation(A, C)` assumes of `C`: it is laid out as `Aᵀ` — one column per row of `A`, each exactly as long as
+    that row has stored entries, inside the arrays; and the row indices of `A` are in range -/
+structure TransposeReady [Zero K] (A C : Csc K) : Prop where
+  outer_size : C.outer.size = A.rows + 1
+  rows_ok : ∀ e ∈ entries A, e.1 < A.rows
+  counts : ∀ i, i < A.rows → C.outer.getD (i + 1) 0 = C.outer.getD i 0 + (rowOf (entries A) i).length
+  first : C.outer.getD 0 0 = 0
+  fits : C.outer.getD A.rows 0 ≤ C.inner.size ∧ C.outer.getD A.rows 0 ≤ C.vals.size
+
+section ready
+variable [Zero K] {A C : Csc K} (h : TransposeReady A C)
+include h
+
+theorem TransposeReady.cnt_zero (i : Nat) (hi : A.rows ≤ i) : rowOf (entries A) i = [] := by
+  unfold rowOf
+  rw [List.filter_eq_nil_iff]
+  intro e he
+  have := h.rows_ok e he
+  simp; omega
+
+theorem TransposeReady.start_le (b a : Nat) (hab : a ≤ b) (hb : b ≤ A.rows) : C.outer.getD a 0 ≤ C.outer.getD b 0 := by
+  induction b with
+  | zero => have : a = 0 := by omega
+            subst this; exact Nat.le_refl _
+  | succ b ih =>
+    by_cases he : a = b + 1
+    · subst he; exact Nat.le_refl _
+    · have := ih (by omega) (by omega)
+      have := h.counts b (by omega)
+      omega
+
+theorem TransposeReady.disj : Disj (C.outer, C.inner, C.vals) (entries A) := by
+  intro i i' q hne hh
+  obtain ⟨⟨a1, a2⟩, ⟨b1, b2⟩⟩ := hh
+  simp only at a1 a2 b1 b2
+  by_cases hi : A.rows ≤ i
+  · rw [h.cnt_zero i hi] at a2; simp only [List.length_nil, Nat.add_zero] at a2; omega
+  by_cases hi' : A.rows ≤ i'
+  · rw [h.cnt_zero i' hi'] at b2; simp only [List.length_nil, Nat.add_zero] at b2; omega
+  have c1 := h.counts i (by omega)
+  have c2 := h.counts i' (by omega)
+  rcases Nat.lt_or_gt_of_ne hne with hlt | hlt
+  · have := h.start_le i' (i + 1) (by omega) (by omega); omega
+  · have := h.start_le i (i' + 1) (by omega) (by omega); omega
+
+theorem TransposeReady.fitsB : Fits (C.outer, C.inner, C.vals) (entries A) := by
+  intro i q hh
+  obtain ⟨a1, a2⟩ := hh
+  simp only at a1 a2 ⊢
+  by_cases hi : A.rows ≤ i
+  · rw [h.cnt_zero i hi] at a2; simp only [List.length_nil, Nat.add_zero] at a2; omega
+  have c1 := h.counts i (by omega)
+  have := h.start_le A.rows (i + 1) (by omega) (Nat.le_refl _)
+  have := h.fits
+  omega
+
+theorem TransposeReady.rows_lt : ∀ e ∈ entries A, e.1 < (C.outer, C.inner, C.vals).1.size := by
+  intro e he
+  have := h.rows_ok e he
+  show e.1 < C.outer.size
+  rw [h.outer_size]; omega
+end ready
+
+theorem getElem?_of_getD (o : Array Nat) (q : Nat) (hq : q < o.size) : o[q]? = some (o.getD q 0) := by
+  rw [Array.getD_eq_getD_getElem?]
+  simp [hq]
+
+/-- **`transpose_no_allocation` restores the column starts of `C`** (the array it abused as write cursors) -/
+theorem transposeInto_outer [Zero K] (A C : Csc K) (h : TransposeReady A C) : (A.transposeInto C).outer = C.outer := by
+  unfold transposeInto
+  simp only
+  rw [transposeInto_fold]
+  have fc := fold_cur (entries A) (C.outer, C.inner, C.vals) h.rows_lt
+  generalize (entries A).foldl bstep (C.outer, C.inner, C.vals) = stf at fc
+  have hsz : stf.1.size = A.rows + 1 := by rw [(fc 0).2]; exact h.outer_size
+  apply Array.ext_getElem?
+  intro q
+  rw [Array.getElem?_setIfInBounds]
+  have hss := shift_size A.rows stf.1 (A.rows - 1)
+  by_cases hq0 : 0 = q
+  · subst hq0
+    rw [if_pos rfl, hss, if_pos (by omega), getElem?_of_getD C.outer 0 (by rw [h.outer_size]; omega), h.first]
+  · rw [if_neg hq0, shift_steps A.rows stf.1 (by omega) (A.rows - 1) (Nat.le_refl _) q]
+    by_cases hq : q ≤ A.rows
+    · rw [getElem?_of_getD C.outer q (by rw [h.outer_size]; omega)]
+      by_cases hq1 : q ≤ A.rows - 1
+      · have hc : A.rows - (A.rows - 1) ≤ q ∧ q ≤ A.rows - 1 ∧ 1 ≤ q := by omega
+        rw [if_pos hc, getElem?_of_getD stf.1 (q - 1) (by omega), (fc (q - 1)).1]
+        have := h.counts (q - 1) (by omega)
+        have e : q - 1 + 1 = q := by omega
+        rw [e] at this
+        show some (C.outer.getD (q - 1) 0 + (rowOf (entries A) (q - 1)).length) = some (C.outer.getD q 0)
+        rw [this]
+      · have hc : ¬ (A.rows - (A.rows - 1) ≤ q ∧ q ≤ A.rows - 1 ∧ 1 ≤ q) := by omega
+        have hqe : q = A.rows := by omega
+        rw [if_neg hc, getElem?_of_getD stf.1 q (by omega), (fc q).1, h.cnt_zero q (by omega)]
+        rfl
+    · have hc : ¬ (A.rows - (A.rows - 1) ≤ q ∧ q ≤ A.rows - 1 ∧ 1 ≤ q) := by omega
+      rw [if_neg hc]
+      have e1 : stf.1[q]? = none := by simp; omega
+      have e2 : C.outer[q]? = none := by simp; have := h.outer_size; omega
+      rw [e1, e2]
+
+theorem foldl_congr_mem' {β : Type} (f g : β → Nat → β) : ∀ (l : List Nat) (acc : β), (∀ k ∈ l, ∀ b, f b k = g b k) → l.foldl f acc = l.foldl g acc
+  | [], _, _ => rfl
+  | k :: l, acc, h => by
+    rw [List.foldl_cons, List.foldl_cons, h k List.mem_cons_self]
+    exact foldl_congr_mem' f g l _ (fun k' hk' => h k' (List.mem_cons_of_mem _ hk'))
+
+/-- columns other than `j` contribute nothing to a sum that selects column `j` -/
+theorem blocks_skip {β : Type} (blk : Nat → List (Ent K)) (g : β → Ent K → β) (j : Nat)
+    (hg : ∀ acc e, e.2.1 ≠ j → g acc e = acc) (hb : ∀ j' e, e ∈ blk j' → e.2.1 = j') :
+    ∀ (js : List Nat) (acc : β), j ∉ js → js.foldl (fun acc j' => (blk j').foldl g acc) acc = acc
+  | [], _, _ => rfl
+  | j' :: js, acc, hn => by
+    rw [List.foldl_cons]
+    have hne : j' ≠ j := fun hh => hn (hh ▸ List.mem_cons_self)
+    have : (blk j').foldl g acc = acc := by
+      have : ∀ (l : List (Ent K)) (acc : β), (∀ e ∈ l, e.2.1 = j') → l.foldl g acc = acc := by
+        intro l
+        induction l with
+        | nil => intro _ _; rfl
+        | cons e l ih =>
+          intro acc hl
+          rw [List.foldl_cons, hg acc e (by rw [hl e List.mem_cons_self]; exact hne)]
+          exact ih acc (fun e' he' => hl e' (List.mem_cons_of_mem _ he'))
+      exact this _ acc (fun e he => hb j' e he)
+    rw [this]
+    exact blocks_skip blk g j hg hb js acc (fun hh => hn (List.mem_cons_of_mem _ hh))
+
+/-- **`transpose_no_allocation` at storage level**: if `C` is laid out as `Aᵀ` (`TransposeReady`), the loops over the arrays leave in `C`
+    the transpose of `A` — entry `(j, i)` of the result is entry `(i, j)` of `A` — whatever values and row indices `C` held before -/
+theorem transposeInto_get [Zero K] [Add K] (A C : Csc K) (h : TransposeReady A C) (i j : Nat) (hi : i < A.rows) (hj : j < A.cols) :
+    (A.transposeInto C).get j i = A.get i j := by
+  have hout := transposeInto_outer A C h
+  unfold get colRange
+  rw [hout, h.counts i hi, Nat.add_sub_cancel_left]
+  unfold transposeInto
+  simp only
+  rw [transposeInto_fold]
+  have fb := fold_bucket (entries A) (C.outer, C.inner, C.vals) h.rows_lt h.disj h.fitsB i
+  generalize (entries A).foldl bstep (C.outer, C.inner, C.vals) = stf at fb
+  -- positions of the bucket hold the entries of row i
+  have hpos := foldl_positions (fun (acc : K) (e : Nat × K) => if e.1 = j then acc + e.2 else acc)
+    (fun q => (stf.2.1.getD q 0, stf.2.2.getD q 0)) ((rowOf (entries A) i).map (·.2)) (C.outer.getD i 0) 0
+    (fun r hr => by
+      have hr' : r < (rowOf (entries A) i).length := by simpa using hr
+      obtain ⟨b1, b2⟩ := fb r hr'
+      simp only at b1 b2
+      rw [List.getElem_map]
+      show (stf.2.1.getD (C.outer.getD i 0 + r) 0, stf.2.2.getD (C.outer.getD i 0 + r) 0) = _
+      rw [Array.getD_eq_getD_getElem? (xs := stf.2.1), Array.getD_eq_getD_getElem? (xs := stf.2.2), b1, b2]
+      rfl)
+  rw [List.length_map] at hpos
+  rw [hpos, List.foldl_map]
+  unfold rowOf
+  rw [foldl_filter']
+  unfold entries
+  rw [List.foldl_flatMap]
+  have hsplit : List.range A.cols = List.range' 0 j ++ j :: List.range' (j + 1) (A.cols - j - 1) := by
+    rw [List.range_eq_range']
+    have h1 : A.cols = j + (1 + (A.cols - j - 1)) := by omega
+    conv_lhs => rw [h1]
+    rw [← List.range'_append_1, ← List.range'_append_1]
+    simp [List.range']
+  rw [hsplit, List.foldl_append, List.foldl_cons]
+  have hskip := blocks_skip (K := K) (fun j' => (List.range' (A.outer.getD j' 0) (A.outer.getD (j' + 1) 0 - A.outer.getD j' 0)).map
+      fun k => (A.inner.getD k 0, j', A.vals.getD k 0))
+    (fun (acc : K) (e : Ent K) => if (e.1 == i) = true then (if e.2.1 = j then acc + e.2.2 else acc) else acc) j
+    (fun acc e hne => by simp [hne])
+    (fun j' e he => by
+      obtain ⟨k, _, rfl⟩ := List.mem_map.mp he
+      rfl)
+  unfold colRange
+  rw [hskip _ _ (by simp only [List.mem_range'_1]; omega), hskip _ _ (by simp only [List.mem_range'_1]; omega), List.foldl_map]
+  apply foldl_congr_mem'
+  intro k _ b
+  by_cases hk : A.inner.getD k 0 = i
+  · simp [hk]
+  · simp [hk]
+
+/-! non-vacuity: a 2×2 matrix with three stored entries and a `C` with the transposed layout but garbage row indices and stale values -/
+def exA : Csc Int := { rows := 2, cols := 2, outer := #[0, 1, 3], inner := #[0, 0, 1], vals := #[1, 2, 3] }
+def exC : Csc Int := { rows := 2, cols := 2, outer := #[0, 2, 3], inner := #[9, 9, 9], vals := #[7, 7, 7] }
+example : TransposeReady exA exC := ⟨by decide, by decide, by decide, by decide, by decide⟩
+example : (exA.transposeInto exC).inner = #[0, 1, 1] ∧ (exA.transposeInto exC).vals = #[1, 2, 3] ∧ (exA.transposeInto exC).outer = #[0, 2, 3] := by decide
 end Piqp.Csc
